@@ -37,7 +37,6 @@ import (
 	"github.com/influxdata/influxql"
 
 	"verifharness/internal/cluster"
-	"verifharness/internal/ev"
 )
 
 type outcome string
@@ -294,9 +293,9 @@ type call struct {
 	desc  string
 	destr bool
 	keys  []string
-	pred func(d *meta.Data) string
-	mc   func(c *meta.Client) error
-	q    string // InfluxQL
+	pred  func(d *meta.Data) string
+	mc    func(c *meta.Client) error
+	q     string // InfluxQL
 	// write: line protocol to db/rp
 	wdb, wrp, wline string
 }
@@ -694,7 +693,7 @@ func faultHistory(caseID string, seed int64) {
 	if r.Thorough() {
 		nOps = 50 + g.Intn(40)
 	}
-	dir := ev.TempDir("c07d")
+	dir := tempDir("c07d")
 	defer os.RemoveAll(dir)
 	r.Begin(caseID, map[string]interface{}{"case_seed": seed, "data_nodes": nData, "ops": nOps})
 	r.Eval(1)
